@@ -15,7 +15,7 @@
 (*             3*2^62, 2^64 (all exact in f32 and f64), -0.0;              *)
 (*   strings   every string up to MaxStr code points over {a, U+20AC (3    *)
 (*             bytes), U+1F600 (4 bytes)} and a few with U+00E9 (2 bytes)  *)
-(*             for the length validators; every string up to 3 code points *)
+(*             for the length validators; every string up to MaxRe points  *)
 (*             over {a, b, 0, 9, '/', ':', LF, U+0663 (a non-ASCII digit)} *)
 (*             for the regex validators;                                   *)
 (*   lists     every list up to MaxList members over a small pool of       *)
@@ -26,7 +26,7 @@
 (* NoDevIsReference, DevOnlyOnTrigger, NativeAgreement.                    *)
 (***************************************************************************)
 EXTENDS Validators, TLC, Json, IOUtils
-CONSTANTS MaxStr, MaxList
+CONSTANTS MaxStr, MaxRe, MaxList
 
 ASSUME TLCSet(8, JsonDeserialize(IOEnv.FAMILY))
 Family == TLCGet(8)
@@ -81,7 +81,8 @@ LenAlphabet == {97, 8364, 128512}
 LenStrings  == Strings(LenAlphabet, MaxStr) \cup {<<233>>, <<233, 233>>, <<233, 97>>, <<233, 233, 233>>, <<97, 97, 97, 97, 97, 97>>,
                                                   <<97, 97, 97, 97, 97, 97, 97>>, <<8364, 8364, 233>>, <<128512, 233, 97>>}
 ReAlphabet  == {97, 98, 48, 57, 47, 58, 10, 1635}
-ReStrings   == Strings(ReAlphabet, 3) \cup {<<98, 98, 98, 98>>, <<97, 97, 97, 97>>, <<97, 98, 97, 98>>}
+ReStrings   == Strings(ReAlphabet, MaxRe) \cup {<<98, 98, 98, 98>>, <<97, 97, 97, 97>>, <<97, 98, 97, 98>>, <<97, 97, 97>>, <<97, 97, 10>>,
+                                                 <<49, 50, 10>>, <<48, 57, 48>>, <<97, 98, 97>>, <<1635, 1635, 1635>>, <<57, 57, 98>>}
 HasRegex(f) == \E val \in Vals(f) : val.kind = "regex"
 StrPool(f)  == IF HasRegex(f) THEN ReStrings ELSE LenStrings
 
@@ -116,7 +117,7 @@ DevOnlyOnTrigger == ph = 1 => \A d \in Devs : (ReachesDev({d}, F, v) # Reaches(F
 SmallInt(x) == x.k = "num" /\ x.scale = 0 /\ Len(x.d) <= 8
 NativeHolds(val, n) == LET b == ToInt(BigOfDec(val.b))
                        IN CASE val.kind = "maximum" -> n <= b [] val.kind = "minimum" -> n >= b
-                            [] val.kind = "multiple_of" -> (IF n < 0 THEN 0 - n ELSE n) % b = 0
+                            [] val.kind = "multiple_of" -> (IF n < 0 THEN 0 - n ELSE n) % (IF b < 0 THEN 0 - b ELSE b) = 0
 NativeAgreement == (ph = 1 /\ F.cont = "plain" /\ F.T \in IntT /\ SmallInt(v)) =>
                      \A val \in NumVals(F) : (val.b.lit = "int" /\ Len(val.b.d) <= 8) =>
                         (ElemHolds(val, v) <=> NativeHolds(val, ToInt(BigOfDec(v))))
@@ -125,4 +126,11 @@ Utf8Ok == (ph = 1 /\ v.k = "str") => Utf8Len(v.cp) = Cardinality({i \in 1..Len(v
                                        + Cardinality({i \in 1..Len(v.cp) : v.cp[i] >= 128})
                                        + Cardinality({i \in 1..Len(v.cp) : v.cp[i] >= 2048})
                                        + Cardinality({i \in 1..Len(v.cp) : v.cp[i] >= 65536})
+\* i64 / u64 -> f64 conversion (round to nearest, ties to even) at hand-computed points
+ASSUME /\ RoundF64(Succ(Two53)) = Two53 /\ RoundF64(Add(Two53, FromInt(2))) = Add(Two53, FromInt(2))
+       /\ RoundF64(Add(Two53, FromInt(3))) = Add(Two53, FromInt(4))
+       /\ RoundF64(U64Max) = Two64 /\ RoundF64(I64Max) = Two63 /\ RoundF64(I64Min) = I64Min
+       /\ RoundF64(Add(Two63, FromInt(1024))) = Two63 /\ RoundF64(Add(Two63, FromInt(1025))) = Add(Two63, FromInt(2048))
+       /\ RoundF64(Add(Two63, FromInt(3072))) = Add(Two63, FromInt(4096))
+       /\ RoundF64(Negate(Add(Two53, FromInt(3)))) = Negate(Add(Two53, FromInt(4))) /\ RoundF64(FromInt(12345)) = FromInt(12345)
 =============================================================================
